@@ -9,7 +9,12 @@ Stages: proofs (Properties_C14.v) ->
      one semaphore point per shared access) compared step by step with Model_C14.trace; free-running stress of
      CachingAuthProvider;
   C. oracle: live engine runs with canary header / basic auth / override values counted at the loopback API in
-     every phase, auth providers under several workers.
+     every phase, auth providers under several workers; runs with 2-3 workers and no probing whose session set-up is
+     slowed down so that the workers overlap in the lazy initialisation of the shared requests.Session;
+  D. the real EngineContext.session read from 1-4 threads under forced schedules (scheduling points: the cached_property's
+     look into / store to the instance dict, reads / writes of ctx._session, the construction of a requests.Session and
+     every assignment to one - all harness-side wrappers) compared step by step with Model_C14.s_trace_delta; oracle:
+     every session handed to a reader / used for a request carries the configured auth.
 """
 from __future__ import annotations
 
@@ -854,6 +859,439 @@ def stress_unkeyed(chk, runs):
 
 
 # ----------------------------------------------------------------------------------------
+# stage D: forced schedules on the real EngineContext.session (lazy initialisation of the shared requests.Session)
+# ----------------------------------------------------------------------------------------
+# model pc tag -> the point the real reader is blocked at (None = not inside ctx.session)
+SESS_TAG = {0: None, 1: "call", 2: "cget", 3: "sread", 4: "sread", 5: "create", 6: "set:verify", 7: "set:auth", 8: "set:headers",
+            9: "set:cert", 10: "set:proxies", 11: "?conf-nothing", 12: "publish", 13: "swrite", 14: "sread", 15: "sread"}
+SESS_FIELDS = ("verify", "auth", "headers", "cert", "proxies")
+
+
+def basic_value(auth):
+    return None if auth is None else "Basic " + base64.b64encode(":".join(auth).encode("latin1")).decode()
+
+
+def sess_snapshot(o):
+    """the attributes EngineContext.session assigns, canonical"""
+    auth = getattr(o, "auth", None)
+    if isinstance(auth, (tuple, list)) and len(auth) == 2:
+        a = basic_value(tuple(auth))
+    else:
+        a = None if auth is None else enc(repr(auth))
+    cert = getattr(o, "cert", None)
+    return (enc(getattr(o, "verify", None)), a, [(k, enc(v)) for k, v in o.headers.items()], None if cert is None else enc(cert),
+            [(k, enc(v)) for k, v in dict.items(o.proxies)])
+
+
+def c_sess(x) -> str:
+    v, a, h, ce, px = x
+    return "{| s_verify := %s; s_auth := %s; s_headers := %s; s_cert := %s; s_proxies := %s |}" % (
+        cstr(v), copt(None if a is None else cstr(a), "str"), citems(h), copt(None if ce is None else cstr(ce), "str"), citems(px))
+
+
+def c_ncfg(net) -> str:
+    return "{| n_verify := %s; n_auth := %s; n_headers := %s; n_cert := %s; n_proxy := %s |}" % (
+        cstr(enc(net["verify"])), copt(None if net["auth"] is None else cstr(basic_value(tuple(net["auth"]))), "str"), cdict(net["headers"]),
+        copt(None if net["cert"] is None else cstr(enc(_cert(net["cert"]))), "str"), copt(None if net["proxy"] is None else cstr(net["proxy"]), "str"))
+
+
+def _cert(c):
+    return tuple(c) if isinstance(c, list) else c
+
+
+def c_ssched(sched) -> str:
+    return clist([{"Call": "SCall", "Th": "STh", "Use": "SUse"}[l[0]] + " " + cnat(l[1]) for l in sched], "slabel")
+
+
+def run_real_session(n, net, explicit, sched):
+    """Drives the real EngineContext.session from n reader threads under a forced schedule.  Scheduling points (all harness-side):
+    the reader's call, the cached_property's look into / store to the instance dict (a __dict__ proxy of a harness subclass of
+    EngineContext), reads / writes of ctx._session, the construction of a requests.Session and every assignment to one.
+    Returns (observations after each label, library default headers, explicit snapshot or None)."""
+    import requests
+    from requests.structures import CaseInsensitiveDict
+
+    import schemathesis
+    from schemathesis.engine.config import EngineConfig, NetworkConfig
+    from schemathesis.engine.context import EngineContext
+
+    ctl = Ctl(n)
+    objs: list = []
+    gots: list = []
+    sends: list = []
+    held: list = [None] * n
+    unprepared: list = []
+
+    def point(name):
+        if getattr(ctl.tls, "tid", None) is not None:
+            ctl.point(name)
+
+    class IHeaders(CaseInsensitiveDict):
+        _armed = False
+
+        def __init__(self, data=None):
+            super().__init__(data)
+            self._armed = True
+
+        def update(self, *a, **kw):
+            if self._armed:
+                point("set:headers")
+                self._armed = False
+                try:
+                    super().update(*a, **kw)
+                finally:
+                    self._armed = True
+            else:
+                super().update(*a, **kw)
+
+        def __setitem__(self, k, v):
+            if self._armed:
+                point("set:headers")
+            super().__setitem__(k, v)
+
+    class IProxies(dict):
+        def __setitem__(self, k, v):
+            point("set:proxies")
+            dict.__setitem__(self, k, v)
+
+        def update(self, *a, **kw):
+            point("set:proxies")
+            dict.update(self, *a, **kw)
+
+    orig_session = requests.Session
+
+    class ISession(orig_session):
+        def __init__(self):
+            point("create")
+            object.__setattr__(self, "_verif_ready", False)
+            super().__init__()
+            object.__setattr__(self, "headers", IHeaders(list(self.headers.items())))
+            object.__setattr__(self, "proxies", IProxies(self.proxies))
+            with ctl.cv:
+                objs.append(self)
+            object.__setattr__(self, "_verif_ready", True)
+
+        def __setattr__(self, name, value):
+            if self.__dict__.get("_verif_ready") and name in SESS_FIELDS + ("trust_env", "cookies", "hooks", "params", "stream", "max_redirects"):
+                point("set:" + name)
+            object.__setattr__(self, name, value)
+
+    real_dict = None
+    for klass in EngineContext.__mro__:
+        if "__dict__" in klass.__dict__:
+            real_dict = klass.__dict__["__dict__"]
+            break
+    assert real_dict is not None, "EngineContext has no instance dict"
+
+    class DictProxy:
+        def __init__(self, d):
+            self.d = d
+
+        def get(self, k, default=None):
+            if k == "session":
+                point("cget")
+            return self.d.get(k, default)
+
+        def __getitem__(self, k):
+            if k == "session":
+                point("cget")
+            return self.d[k]
+
+        def __contains__(self, k):
+            if k == "session":
+                point("cget")
+            return k in self.d
+
+        def __setitem__(self, k, v):
+            if k == "session":
+                point("publish")
+            self.d[k] = v
+
+        def setdefault(self, k, v):
+            if k == "session":
+                point("publish")
+            return self.d.setdefault(k, v)
+
+    class ICtx(EngineContext):
+        @property
+        def __dict__(self):
+            return DictProxy(real_dict.__get__(self))
+
+        def __getattribute__(self, name):
+            if name == "_session":
+                point("sread")
+            return object.__getattribute__(self, name)
+
+        def __setattr__(self, name, value):
+            if name in ("_session", "session"):
+                point("swrite")
+            object.__setattr__(self, name, value)
+
+    defaults = list(requests.utils.default_headers().items())
+    netcfg = NetworkConfig(auth=None if net["auth"] is None else tuple(net["auth"]), headers=dict(net["headers"]), tls_verify=net["verify"],
+                           proxy=net["proxy"], cert=_cert(net["cert"]))
+    schema = schemathesis.openapi.from_dict({"openapi": "3.0.2", "info": {"title": "t", "version": "1"}, "paths": {}})
+    want_auth = basic_value(None if net["auth"] is None else tuple(net["auth"]))
+    requests.Session = ISession
+    threads = []
+    out = []
+    try:
+        ex_obj = None
+        if explicit is not None:
+            ex_obj = ISession()
+            object.__setattr__(ex_obj, "auth", tuple(explicit["auth"]) if explicit.get("auth") else None)
+            dict.update(ex_obj.proxies, explicit.get("proxies") or {})
+            for k, v in (explicit.get("headers") or {}).items():
+                CaseInsensitiveDict.__setitem__(ex_obj.headers, k, v)
+            object.__setattr__(ex_obj, "verify", explicit.get("verify", True))
+        ex_snap = None if ex_obj is None else sess_snapshot(ex_obj)
+        ctx = ICtx(schema=schema, stop_event=threading.Event(), config=EngineConfig(network=netcfg), session=ex_obj)
+        requests_q: list[list] = [[] for _ in range(n)]
+
+        def idx(o):
+            for i, x in enumerate(objs):
+                if x is o:
+                    return i
+            return None if o is None else -1
+
+        def reader(tid):
+            ctl.tls.tid = tid
+            try:
+                while True:
+                    with ctl.cv:
+                        while not requests_q[tid]:
+                            if ctl.abort:
+                                return
+                            ctl.cv.wait(0.2)
+                        item = requests_q[tid].pop(0)
+                    if item is None:
+                        return
+                    ctl.point("call")
+                    sess = ctx.session if tid % 2 == 0 else ctx.transport_kwargs["session"]
+                    with ctl.cv:
+                        gots.append((tid, idx(sess), sess_snapshot(sess)))
+                        held[tid] = sess
+                        ctl.busy[tid] = False
+                        ctl.cv.notify_all()
+            except Abort:
+                return
+            except BaseException as exc:  # noqa: BLE001 (the property under test raised: report, do not hang)
+                with ctl.cv:
+                    gots.append((tid, None, f"raises {type(exc).__name__}: {exc}"))
+                    ctl.busy[tid] = False
+                    ctl.cv.notify_all()
+
+        threads = [threading.Thread(target=reader, args=(i,), daemon=True) for i in range(n)]
+        for t in threads:
+            t.start()
+
+        def observe():
+            d = real_dict.__get__(ctx)
+            return {"heap": [sess_snapshot(o) for o in objs], "cached": idx(d.get("session")), "sattr": idx(d.get("_session")),
+                    "at": [ctl.at.get(i) for i in range(n)], "gots": list(gots), "sends": list(sends)}
+
+        for lab in sched:
+            kind, t = lab[0], lab[1]
+            if kind == "Call":
+                if t < n and not ctl.busy[t]:
+                    with ctl.cv:
+                        gen = ctl.gen[t]
+                        ctl.busy[t] = True
+                        requests_q[t].append(1)
+                        ctl.cv.notify_all()
+                    if not ctl.wait_blocked_or_idle(t, gen):
+                        raise TimeoutError(f"reader {t} did not reach its first point")
+            elif kind == "Th":
+                if t < n and t in ctl.at:
+                    with ctl.cv:
+                        gen = ctl.gen[t]
+                        ctl.released.add(t)
+                        ctl.cv.notify_all()
+                    if not ctl.wait_blocked_or_idle(t, gen):
+                        raise TimeoutError(f"reader {t} did not come back after a step (deadlock in the implementation?)")
+            else:  # Use: reader t sends a request through the session it obtained last
+                if t < n and held[t] is not None:
+                    o = held[t]
+                    sends.append((t, idx(o), sess_snapshot(o)))
+                    try:
+                        prepared = orig_session.prepare_request(o, requests.Request("GET", "http://127.0.0.1:1/", headers={"X-Verif": "1"}))
+                        got_auth = prepared.headers.get("Authorization")
+                    except Exception as exc:  # noqa: BLE001
+                        got_auth = f"raises {type(exc).__name__}"
+                    if ex_obj is None and want_auth is not None and got_auth != want_auth:
+                        unprepared.append((t, idx(o), got_auth))
+            out.append(observe())
+    finally:
+        requests.Session = orig_session
+        with ctl.cv:
+            ctl.abort = True
+            for q in locals().get("requests_q", []):
+                q.append(None)
+            ctl.cv.notify_all()
+        for t in threads:
+            t.join(timeout=2)
+    return out, defaults, ex_snap, unprepared
+
+
+def model_sdelta(v):
+    heap, cached, sattr, tags, gots, sends = v
+
+    def ps(x):
+        ver, a, h, ce, px = x
+        a, ce = popt(a), popt(ce)
+        return (pstr(ver), None if a is None else pstr(a), pdict(h), None if ce is None else pstr(ce), pdict(px))
+
+    def plog(e):
+        return (e[0], e[1], ps(e[2]))
+
+    return {"heap_changes": [(i, ps(x)) for i, x in heap], "cached": popt(cached), "sattr": popt(sattr), "at": [SESS_TAG[t] for t in tags],
+            "handed_out": [plog(e) for e in gots], "sent_through": [plog(e) for e in sends]}
+
+
+def real_sdeltas(obs, explicit_snap):
+    """the change made by each label, from the full observations (mirror of Model_C14.s_delta)"""
+    prev = {"heap": [] if explicit_snap is None else [explicit_snap], "gots": [], "sends": []}
+    out = []
+    for o in obs:
+        changes = [(i, x) for i, x in enumerate(o["heap"]) if i >= len(prev["heap"]) or _norm(prev["heap"][i]) != _norm(x)]
+        out.append({"heap_changes": changes, "cached": o["cached"], "sattr": o["sattr"], "at": o["at"],
+                    "handed_out": o["gots"][len(prev["gots"]):], "sent_through": o["sends"][len(prev["sends"]):]})
+        prev = o
+    return out
+
+
+NET_SAFE_NAMES = ["X-Canary", "x-canary", "User-Agent", "user-agent", "Accept", "accept-encoding", "X-B", "Authorization", "Connection"]
+
+
+def gen_netcfg(rng):
+    hs = {}
+    for name in rng.sample(NET_SAFE_NAMES, rng.choice([0, 0, 1, 2, 3])):
+        hs[name] = rng.choice(["v", "CAN", "mine", "1", "a b"])
+    return {
+        "verify": rng.choice([True, True, False, "/ca/bundle.pem"]),
+        "auth": rng.choice([None, ["u", "p"], ["u", "p"], ["user", "pa:ss"]]),
+        "headers": hs,
+        "cert": rng.choice([None, None, "/c/client.pem", ["/c/client.pem", "/c/key.pem"]]),
+        "proxy": rng.choice([None, None, "http://127.0.0.1:9"]),
+    }
+
+
+def gen_sess_schedule(rng, n, length):
+    sched = []
+    for _ in range(length):
+        r = rng.random()
+        if r < 0.22:
+            sched.append(("Call", rng.randrange(n + (1 if rng.random() < 0.1 else 0))))
+        elif r < 0.34:
+            sched.append(("Use", rng.randrange(n)))
+        else:
+            t = rng.randrange(n)
+            for _b in range(rng.choice([1, 1, 1, 2, 3, 5, 12])):
+                sched.append(("Th", t))
+    return sched
+
+
+def preemption_sweep(n, depth):
+    """reader 0 is stopped after k of its steps (k = 0..depth); then every other reader runs to the end and sends a request; then
+    reader 0 finishes: hits every window between two shared accesses of the initialising reader"""
+    out = []
+    for k in range(depth + 1):
+        sched = [("Call", t) for t in range(n)] + [("Th", 0)] * k
+        for t in range(1, n):
+            sched += [("Th", t)] * depth + [("Use", t)]
+        sched += [("Th", 0)] * depth + [("Use", 0)] + [("Use", t) for t in range(1, n)]
+        out.append(sched)
+    return out
+
+
+def stage_d(chk: core.Check, n_sched: int):
+    rng = chk.rng
+    corpus = [json.loads(p.read_text()) for p in sorted((core.VERIF / "corpus" / "C14").glob("c_*.json"))]
+    cases = [(c["n"], c["net"], c.get("explicit"), [tuple(l) for l in c["sched"]]) for c in corpus]
+    full = {"verify": False, "auth": ["u", "p"], "headers": {"X-Canary": "CAN"}, "cert": "/c/client.pem", "proxy": "http://127.0.0.1:9"}
+    only_auth = {"verify": True, "auth": ["u", "p"], "headers": {}, "cert": None, "proxy": None}
+    for sched in preemption_sweep(2, 11):
+        cases.append((2, full, None, sched))
+    for sched in preemption_sweep(3 if chk.seed % 2 else 2, 7)[:: 1 if chk.tier != "quick" else 2]:
+        cases.append((3 if chk.seed % 2 else 2, only_auth, None, sched))
+    for _ in range(n_sched):
+        n = rng.choice([1, 2, 2, 3, 3, 4])
+        explicit = None
+        if rng.random() < 0.15:
+            explicit = {"auth": rng.choice([None, ["e", "x"]]), "headers": {"X-E": "1"}, "verify": rng.choice([True, False]), "proxies": {}}
+        cases.append((n, gen_netcfg(rng), explicit, gen_sess_schedule(rng, n, rng.choice([8, 16, 30]))))
+    reals = []
+    for n, net, explicit, sched in cases:
+        canon = {"n": n, "net": net, "explicit": explicit, "sched": [list(l) for l in sched]}
+        try:
+            reals.append(run_real_session(n, net, explicit, sched))
+        except Exception as exc:  # noqa: BLE001
+            chk.disagree("forced schedule on the real EngineContext.session did not complete", canon, f"{type(exc).__name__}: {exc}", None)
+            reals.append(None)
+    exprs = []
+    for (n, net, explicit, sched), real in zip(cases, reals):
+        if real is None:
+            exprs.append(f"s_trace_delta true {c_ncfg(net)} [] [] (s_init 0%nat None)")  # placeholder of the same type
+            continue
+        _, defaults, ex_snap, _ = real
+        ex = "None" if ex_snap is None else f"(Some {c_sess(ex_snap)})"
+        exprs.append(f"s_trace_delta true {c_ncfg(net)} {citems(defaults)} {c_ssched(sched)} (s_init {cnat(n)} {ex})")
+    models = core.coq_eval(IMPORTS, exprs, shard=8)
+    agree = both_built = handed = 0
+    for (n, net, explicit, sched), real, mv in zip(cases, reals, models):
+        if real is None:
+            continue
+        canon = {"n": n, "net": net, "explicit": explicit, "sched": [list(l) for l in sched]}
+        obs, _, ex_snap, unprepared = real
+        mobs = [model_sdelta(v) for v in mv]
+        last = obs[-1] if obs else {"heap": [], "gots": [], "sends": []}
+        interesting = len(last["heap"]) - (1 if explicit else 0) >= 2 or any(
+            sum(a is not None and a.startswith("set:") or a in ("publish", "create") for a in o["at"]) >= 1 and any(a in ("call", "cget") for a in o["at"]) for o in obs)
+        chk.seen(canon, interesting)
+        chk.count(f"sess:readers:{n}")
+        chk.count(f"sess:objects_built:{min(len(last['heap']), 4)}")
+        both_built += len(last["heap"]) - (1 if explicit else 0) >= 2
+        handed += len(last["gots"])
+        bad = None
+        for i, (r, m) in enumerate(zip(real_sdeltas(obs, ex_snap), mobs)):
+            if _norm(r) != _norm(m):
+                bad = (i, r, m)
+                break
+        if bad is not None:
+            i, r, m = bad
+            chk.disagree(f"real EngineContext.session vs Model_C14.s_trace_delta at step {i} ({sched[i]})", canon, _norm(r), _norm(m))
+        else:
+            agree += 1
+        # oracle, independent of the model: what a reader is handed / sends through carries the configured credentials
+        want = basic_value(None if net["auth"] is None else tuple(net["auth"]))
+        if explicit is None and want is not None:
+            problem = None
+            for kind, log in (("was handed", last["gots"]), ("sent a request through", last["sends"])):
+                for t, o, snap in log:
+                    if problem is None and isinstance(snap, str):
+                        problem = (f"reader {t}: ctx.session {snap} under a forced schedule", None)
+                    elif problem is None and snap[1] != want:
+                        problem = (f"reader {t} {kind} a requests.Session (object #{o}) whose auth is {snap[1]!r}, configured {want!r}, "
+                                   f"under a forced schedule of {n} readers of EngineContext.session", {"session_attributes": snap})
+            for t, o, got_auth in unprepared:
+                if problem is None:
+                    problem = (f"reader {t}: the request prepared through the session it holds (object #{o}) carries Authorization={got_auth!r}, configured {want!r}", None)
+            if problem is not None:
+                chk.fail(problem[0], canon, problem[1])
+        if len(chk.samples) < 6 and interesting and bad is None:
+            chk.sample({"session_schedule": canon, "handed_out": [(t, o) for t, o, _ in last["gots"]]})
+    # the regression model (publish first) really differs on the witness schedule (evaluated, not assumed)
+    w = [("Call", 0), ("Call", 1), ("Th", 0), ("Th", 0), ("Th", 0), ("Th", 1), ("Th", 1), ("Use", 1)]
+    C = c_ncfg(only_auth)
+    reg = core.coq_eval(IMPORTS, [f"(forallb (auth_ok {C}) (sends (s_run false {C} [] {c_ssched(w)} (s_init 2%nat None))), "
+                                  f"forallb (auth_ok {C}) (sends (s_run true {C} [] {c_ssched(preemption_sweep(2, 11)[5])} (s_init 2%nat None))))"])[0]
+    if list(reg) != [False, True]:
+        chk.disagree("regression model (publish first) should hand out an unconfigured session on the witness schedule, the model of the code should not", w, None, reg)
+    chk.stages["D_session_forced_schedules"] = {"schedules": len(cases), "corpus": len(corpus), "agree_step_by_step": agree,
+                                                "schedules_where_two_readers_built_a_session": both_built, "sessions_handed_out": handed}
+
+
+# ----------------------------------------------------------------------------------------
 # stage C: live engine oracle
 # ----------------------------------------------------------------------------------------
 def oracle_schema(links=True, secured=False, small=False):
@@ -1074,6 +1512,10 @@ def stage_c(chk: core.Check, budget: int):
         except Exception as exc:  # noqa: BLE001
             chk.broken.append({"kind": "harness", "what": f"live engine run failed: {type(exc).__name__}: {exc}", "detail": {"cfg": str(cfg)}})
     provider_live(chk, stats)
+    try:
+        session_overlap_live(chk, stats)
+    except Exception as exc:  # noqa: BLE001
+        chk.broken.append({"kind": "harness", "what": f"session overlap run failed: {type(exc).__name__}: {exc}", "detail": None})
     if stats["stateful_item_requests"] == 0:
         chk.notes.append("no link-derived request reached /items in the stateful runs of this seed")
     chk.stages["C_live_engine_oracle"] = dict(stats)
@@ -1118,6 +1560,82 @@ def provider_live(chk, stats):
             chk.fail("auth provider never consulted", canon)
 
 
+def session_overlap_live(chk, stats):
+    """Engine runs with 2-3 workers, basic auth (and verify / header settings), NO probing phase (so the worker threads are the first
+    to ask the context for its session), where the session set-up is slowed down: the network configuration is a NetworkConfig
+    subclass whose attribute reads made from inside EngineContext.session sleep once per attribute.  The workers overlap in the lazy
+    initialisation; every request the API receives must carry the configured Authorization (and the configured header)."""
+    import sys as _sys
+    from dataclasses import dataclass
+
+    import hypothesis
+
+    import schemathesis
+    from harness.loopback import Recorder
+    from schemathesis.engine import from_schema
+    from schemathesis.engine.config import EngineConfig, ExecutionConfig, NetworkConfig
+    from schemathesis.engine.phases import PhaseName
+
+    rng = chk.rng
+    plans = [(2, "fuzzing", {"auth": ("u", "p")}), (3, "fuzzing", {"auth": ("user", "pa:ss"), "headers": {"X-Canary": "CAN"}, "tls_verify": False})]
+    if chk.tier != "quick" or chk.broken:
+        plans += [(3, "coverage", {"auth": ("u", "p"), "headers": {"X-Canary": "CAN"}}), (2, "examples", {"auth": ("u", "p")}),
+                  (4, "fuzzing", {"auth": ("u", "p"), "tls_verify": False})]
+    for workers, phase, netkw in plans:
+        slept: set = set()
+        lk = threading.Lock()
+        delay = rng.choice([0.15, 0.25])
+
+        @dataclass
+        class SlowNetworkConfig(NetworkConfig):
+            def __getattribute__(self, name):
+                if name in ("tls_verify", "auth", "headers", "cert", "proxy") and _sys._getframe(1).f_code.co_name == "session":
+                    with lk:
+                        first = name not in slept
+                        slept.add(name)
+                    if first:
+                        time.sleep(delay)
+                return object.__getattribute__(self, name)
+
+        paths = {}
+        for name in ("a", "b", "c", "d", "e", "f"):
+            paths[f"/things/{name}"] = {"get": {"parameters": [{"name": "limit", "in": "query", "schema": {"type": "integer", "minimum": 0}, "example": 3}],
+                                                "responses": {"200": {"description": "ok"}}}}
+        raw = {"openapi": "3.0.2", "info": {"title": "t", "version": "1"}, "paths": paths}
+        rec = Recorder(lambda item: (200, [("Content-Type", "application/json")], b"{}"))
+        try:
+            schema = schemathesis.openapi.from_dict(raw)
+            schema.configure(base_url=rec.url)
+            settings = hypothesis.settings(max_examples=4, deadline=None, database=None, derandomize=False, suppress_health_check=list(hypothesis.HealthCheck))
+            exe = ExecutionConfig(phases=[PhaseName.from_str(phase)], hypothesis_settings=settings, seed=rng.randrange(10**6), workers_num=workers)
+            config = EngineConfig(execution=exe, network=SlowNetworkConfig(**netkw))
+            for _ev in from_schema(schema, config=config).execute():
+                pass
+            reqs = rec.take()
+        finally:
+            rec.close()
+        want = basic_value(netkw["auth"])
+        canon = {"workers": workers, "phase": phase, "network": {k: (list(v) if isinstance(v, tuple) else v) for k, v in netkw.items()},
+                 "probing": False, "session_setup_delayed_per_attribute_s": delay}
+        chk.seen({"session_overlap_live": canon}, bool(slept) and len(reqs) > 0)
+        stats["session_overlap_runs"] += 1
+        stats["session_overlap_requests"] += len(reqs)
+        if not slept:
+            chk.notes.append("session_overlap_live: no configuration attribute was read from inside EngineContext.session (the set-up moved?)")
+        bad = [r for r in reqs if dict((k.lower(), v) for k, v in r["headers"]).get("authorization") != want]
+        if bad:
+            r = bad[0]
+            got = dict((k.lower(), v) for k, v in r["headers"]).get("authorization")
+            chk.fail(f"{len(bad)} of {len(reqs)} requests received by the API lack the configured basic auth (first: {r['method']} {r['target']} Authorization={got!r}) "
+                     f"with {workers} workers overlapping in the lazy set-up of the shared session, phase {phase}, no probing", canon)
+        for name, val in (netkw.get("headers") or {}).items():
+            miss = [r for r in reqs if dict((k.lower(), v) for k, v in r["headers"]).get(name.lower()) != val]
+            if miss:
+                chk.fail(f"{len(miss)} of {len(reqs)} requests lack the configured header {name} with {workers} workers overlapping in the session set-up", canon)
+        if not reqs:
+            chk.fail("session_overlap_live: the API received no request", canon)
+
+
 # ----------------------------------------------------------------------------------------
 # known findings
 # ----------------------------------------------------------------------------------------
@@ -1138,8 +1656,10 @@ def run(chk: core.Check):
     chk.trusted = [
         "Coq 8.16.1 kernel, vm_compute (witness lemmas and model evaluation); no native_compute; no axioms",
         "hand-written model theories/C14/Model_C14.v: Part A (dict / CaseInsensitiveDict algebra of prepare_headers, get_strategy_kwargs, "
-        "get_parameters_value, add_coverage, before_call, remove_auth, sanitize_value, AuthStorage.set) and Part B (CachingAuthProvider.get as an LTS)",
-        "correspondence harness harness/props/c14.py (encoders, Coq output parser, instrumented dict/lock/timer/provider, controller)",
+        "get_parameters_value, add_coverage, before_call, remove_auth, sanitize_value, AuthStorage.set), Part B (CachingAuthProvider.get as an LTS) "
+        "and Part C (EngineContext.session + functools.cached_property as an LTS over n readers)",
+        "correspondence harness harness/props/c14.py (encoders, Coq output parser, instrumented dict/lock/timer/provider, controller; for Part C the "
+        "instrumented requests.Session subclass, the __dict__ proxy / _session interception of a harness subclass of EngineContext)",
         "requests 2.x header / auth merge (Session.prepare_request) - modelled in wire_headers and compared with the real library on every run",
         "the loopback HTTP server harness/loopback.py as the observer of what is sent",
     ]
@@ -1148,6 +1668,8 @@ def run(chk: core.Check):
         "parameter serializers (serialize_components) leave string-valued entries unchanged; override values are strings (CLI)",
         "each dict get / setitem, timer() call, Lock acquire / release and provider.get is one atomic step (CPython GIL); cache_by_key is a pure function",
         "the clock is monotone (time.monotonic)",
+        "Part C: the instance-dict lookup of ctx.session, cache.get / cache[name] = val of functools.cached_property (Python 3.12: no lock), each read / write of "
+        "ctx._session, requests.Session() and each attribute assignment on a session is one atomic step; reads of the immutable NetworkConfig are not shared accesses",
         "an auth provider's set() is user code: only the choice of provider and its cached data are modelled",
     ]
     chk.rule = (
@@ -1155,13 +1677,17 @@ def run(chk: core.Check):
         "(0-3 network headers incl. User-Agent/Authorization/test-case-id spellings, basic auth, overrides naming declared and undeclared parameters, "
         "unique_inputs, sanitize) x scripted generator outputs with clashes; non-trivial = an override names a declared parameter or network headers exist. "
         "B: schedules over 1-4 callers, keys {1,2}, interval {0,5,300}, labels Tick d / Call t k / Th t with bursts; non-trivial = a key is fetched twice or a caller "
-        "waits for the lock.  C: live engine runs per phase; every non-probe request is inspected.  All draws from one PRNG seeded by VERIF_SEED."
+        "waits for the lock.  C: live engine runs per phase; every non-probe request is inspected; plus runs with 2-3 workers, basic auth, no probing and a delayed session set-up.  "
+        "D: network configurations (verify True/False/path, auth or none, 0-3 headers, cert, proxy; 15% with an explicitly passed session) x schedules over 1-4 readers of ctx.session "
+        "with labels Call t / Th t / Use t (send a request through the session held): a preemption sweep (reader 0 stopped after each of its k = 0..11 steps while the others run to the "
+        "end and send) and random bursts; non-trivial = two readers built a session or one reader is inside the set-up while another asks.  All draws from one PRNG seeded by VERIF_SEED."
     )
     chk.proofs(["Common", "C14"])
     stage_a(chk, 30 if quick else 400)
     regression_prefix(chk)
     stage_b(chk, (45 if quick else 600) * (3 if chk.broken else 1))
     stage_c(chk, (17 if quick else 10**6) * (3 if chk.broken else 1))
+    stage_d(chk, (40 if quick else 500) * (3 if chk.broken else 1))   # after C: the draws of the stages A-C stay what they were
     for f in chk.findings:
         chk.known(f, witness_fails(f["witness"]))
 
@@ -1170,7 +1696,11 @@ def replay(payload) -> int:
     for f in payload.get("failing_inputs", []):
         inp = f.get("input") or {}
         print("failing input:", f.get("what"))
-        if "sched" in inp:
+        if "sched" in inp and "net" in inp:
+            obs, _, _, unprepared = run_real_session(inp["n"], inp["net"], inp.get("explicit"), [tuple(l) for l in inp["sched"]])
+            print("  sessions handed out (reader, object, auth):", [(t, o, x if isinstance(x, str) else x[1]) for t, o, x in obs[-1]["gots"]])
+            print("  requests sent through (reader, object, auth):", [(t, o, x[1]) for t, o, x in obs[-1]["sends"]], "prepared without the configured Authorization:", unprepared)
+        elif "sched" in inp:
             real = run_real_schedule(inp["n"], inp["iv"], [tuple(l) for l in inp["sched"]])
             print("  real fetch log:", real[-1]["fetches"], "violation:", sep_violation(real[-1]["fetches"], inp["iv"]))
         elif "cfg" in inp:
@@ -1181,7 +1711,16 @@ def replay(payload) -> int:
     for b in payload.get("broken_obligations_or_correspondence", []):
         print("broken:", b.get("kind"), b.get("what"))
         inp = b.get("input")
-        if isinstance(inp, dict) and "sched" in inp:
+        if isinstance(inp, dict) and "sched" in inp and "net" in inp:
+            sched = [tuple(l) for l in inp["sched"]]
+            obs, defaults, ex_snap, _ = run_real_session(inp["n"], inp["net"], inp.get("explicit"), sched)
+            ex = "None" if ex_snap is None else f"(Some {c_sess(ex_snap)})"
+            mv = core.coq_eval(IMPORTS, [f"s_trace_delta true {c_ncfg(inp['net'])} {citems(defaults)} {c_ssched(sched)} (s_init {cnat(inp['n'])} {ex})"])[0]
+            for i, (r, m) in enumerate(zip(real_sdeltas(obs, ex_snap), [model_sdelta(v) for v in mv])):
+                if _norm(r) != _norm(m):
+                    print(f"  step {i} {sched[i]}:\n    implementation: {r}\n    model         : {m}")
+                    break
+        elif isinstance(inp, dict) and "sched" in inp:
             sched = [tuple(l) for l in inp["sched"]]
             real = run_real_schedule(inp["n"], inp["iv"], sched)
             mv = core.coq_eval(IMPORTS, [f"trace true {cN(inp['iv'])} {c_sched(sched)} (init {cnat(inp['n'])})"])[0]
